@@ -219,3 +219,23 @@ def r5(ctx):
         if "timestamp" in r.key or r.status != "PASS":
             r.rule = "C04-R5"
             yield r
+
+
+@M.rule("C04-R6", "the caller's clock value and the window reach the freshness test unchanged")
+def r6(ctx):
+    """prevalidate's window (R2) is built from its parameters; this pins them to the entry point's own `server_timestamp`
+    (no rounding, truncation to seconds, `Utc::now()` substitution) and to the constant window of R1, at both call sites."""
+    e = ctx.co(ENTRY)
+    c = one(e.calls(r"SigV4Authenticator::validate_signature$"), "validate_signature call in entry point")
+    ctx.count(3)
+    if len(c[1]["args"]) < 4 or not handed_on_unchanged(e, c[1]["args"][3], "server_timestamp"):
+        yield VIOL("C04-R6", "handoff/entry->validate_signature/server_timestamp", "the clock value given to validate_signature is not the caller's `server_timestamp` as it is", where=e.span_of_block(c[0]))
+    else:
+        yield PASS("C04-R6", "handoff/entry->validate_signature/server_timestamp", "`server_timestamp` handed on unchanged", [site(e, c[0], "validate_signature")])
+    v = ctx.co(VS)
+    p = one(v.calls(r"SigV4Authenticator::prevalidate$"), "prevalidate call in validate_signature")
+    for pos, nm in ((3, "server_timestamp"), (4, "allowed_mismatch")):
+        if pos >= len(p[1]["args"]) or not handed_on_unchanged(v, p[1]["args"][pos], nm):
+            yield VIOL("C04-R6", "handoff/validate_signature->prevalidate/" + nm, "argument %d of prevalidate is not validate_signature's own `%s` as it is" % (pos, nm), where=v.span_of_block(p[0]))
+        else:
+            yield PASS("C04-R6", "handoff/validate_signature->prevalidate/" + nm, "`%s` handed on unchanged" % nm, [site(v, p[0], "prevalidate")])
